@@ -22,11 +22,15 @@ func runC09(r *engine.Run) {
 	r.Rule("EXH-W", "in insert, delete, getBlockProof and markToCollect every type test of the position node (the walk's current, possibly collapsed node) for a kind other than *hashNode is preceded on every path by a *hashNode test of the position (dominating it), or leads on its failure edge to one before the function exits: a collapsed reference is resolved before it is interpreted as 'something else / empty'")
 	r.Rule("DEP-weight", "in the branch arm of insert and delete the value stored to routingNode.weight and the returned weight change both depend on the change returned by the recursive call; in the shared-prefix arm the returned change does")
 	r.Rule("DOM-dirty", "in insert and delete, a store to a hashed field (routingNode.weight/Children[i], shortNode.key/value, valueNode.value/weight) of an object is accompanied by a store dirty=true on the same object that dominates the store or every return reachable after it")
+	r.Rule("DOM-dirty-path", "in insert and delete, an arm that descended into a child and returns its own node marks that node dirty on every such success path: any successful descent may have changed the subtree (a value rewritten in place with equal weight changes neither the child pointer nor the weight), so the cached hashes on the path must be invalidated")
+	r.Rule("ORDER-survivor", "a node whose hash insert/delete schedules for deletion (tempDeleted) is not kept in the new trie on the same path: the hash of a child that is merely re-parented must not be scheduled")
 	r.Rule("DOM-range", "getBlockProof descends into child i only when block <= child.Weight() tested true, and continues the scan with block reduced by that child's weight")
 	r.NotDec = append(r.NotDec, "the numeric equalities themselves (total weight = sum of live weights, block ownership, root = independent computation)")
 	exhW(r, "EXH-W", []string{"insert", "delete", "getBlockProof", "markToCollect"})
 	depWeight(r)
 	domDirty(r)
+	domDirtyPath(r)
+	orderSurvivor(r, "ORDER-survivor")
 	domRangeProof(r)
 }
 
@@ -240,7 +244,17 @@ func depWeight(r *engine.Run) {
 					if !engine.ReachableAfter(ch.(ssa.Instruction), ret) {
 						continue
 					}
-					if dependsOn(ret.Results[0], ch) {
+					zeroUnderEq := false
+					if isZero(ret.Results[0]) {
+						if facts, okf := engine.FactsOn(f, ret.Block()); okf {
+							for _, ft := range facts {
+								if ft.Kind == "eq" && ft.Truth && (ft.A == ch && isZero(ft.B) || ft.B == ch && isZero(ft.A)) {
+									zeroUnderEq = true // returns 0 where the child's change tested 0
+								}
+							}
+						}
+					}
+					if dependsOn(ret.Results[0], ch) || zeroUnderEq {
 						okRet = true
 					} else {
 						okRet = false
@@ -480,4 +494,189 @@ func domRangeProof(r *engine.Run) {
 		return
 	}
 	rangeGuards(r, rule, f, func(c *ssa.Call) bool { return c.Call.StaticCallee() == f })
+}
+
+// domDirtyPath: arms that descend and return their node set dirty=true.
+func domDirtyPath(r *engine.Run) {
+	const rule = "DOM-dirty-path"
+	n := 0
+	for _, name := range []string{"insert", "delete"} {
+		f := wfn(r, rule, name)
+		if f == nil {
+			continue
+		}
+		var nodeParam ssa.Value
+		for _, p := range f.Params {
+			if p.Name() == "node" {
+				nodeParam = p
+			}
+		}
+		arms := typeArms(f, nodeParam)
+		for _, kind := range []string{"routingNode", "shortNode"} {
+			arm := arms[kind]
+			if arm == nil {
+				continue
+			}
+			var recs []*ssa.Call
+			for b := range arm.blocks {
+				for _, in := range b.Instrs {
+					if c, ok := in.(*ssa.Call); ok && c.Call.StaticCallee() == f && !nilConst(c.Call.Args[1]) {
+						recs = append(recs, c)
+					}
+				}
+			}
+			var dirty []*ssa.Store
+			for b := range arm.blocks {
+				for _, in := range b.Instrs {
+					if st, ok := in.(*ssa.Store); ok {
+						if fa, ok := st.Addr.(*ssa.FieldAddr); ok && fa.X == arm.asserted && engine.FieldOf(fa).Name() == "dirty" {
+							if c := constVal(st.Val); c != nil && c.ExactString() == "true" {
+								dirty = append(dirty, st)
+							}
+						}
+					}
+				}
+			}
+			o := ord{}
+			for _, ret := range engine.Returns(f) {
+				if !arm.blocks[ret.Block()] || len(ret.Results) != 3 || !nilConst(ret.Results[2]) {
+					continue
+				}
+				mi, ok := ret.Results[1].(*ssa.MakeInterface)
+				if !ok || mi.X != arm.asserted {
+					continue
+				}
+				after := false
+				for _, rc := range recs {
+					if engine.ReachableAfter(rc, ret) {
+						after = true
+					}
+				}
+				if !after {
+					continue
+				}
+				n++
+				good := false
+				for _, d := range dirty {
+					if engine.InstrDominates(d, ret) {
+						good = true
+					}
+				}
+				r.Check(good, rule, o.next(fn(f)+"|*"+kind+" arm returns itself"), r.P.Pos(ret.Pos()), "dirty=true dominates the return",
+					"after descending into a child the node is returned on a path that did not mark it dirty: a value rewritten in place below it leaves the cached hashes of its ancestors stale (root no longer follows content, Commit writes nothing)")
+			}
+		}
+	}
+	if n < 4 {
+		r.Anchor(rule, fmt.Errorf("unresolved anchor: %d descend-and-return paths found, 4 confirmed by reading", n))
+	}
+}
+
+// orderSurvivor: hashes scheduled for deletion do not belong to nodes kept in
+// the new trie on the same execution.
+func orderSurvivor(r *engine.Run, rule string) {
+	n := 0
+	for _, name := range []string{"insert", "delete"} {
+		f := wfn(r, rule, name)
+		if f == nil {
+			continue
+		}
+		resolveOf := func(v ssa.Value) ssa.Value {
+			// cnode := t.resolve(x)  ->  x ; type assertions and extracts looked through
+			for i := 0; i < 6; i++ {
+				switch x := v.(type) {
+				case *ssa.Extract:
+					if c, ok := x.Tuple.(*ssa.Call); ok && x.Index == 0 {
+						if sc := c.Call.StaticCallee(); sc != nil && (sc.Name() == "resolve" || sc.Name() == "resolveHashNode") {
+							v = c.Call.Args[1]
+							continue
+						}
+					}
+					if ta, ok := x.Tuple.(*ssa.TypeAssert); ok && x.Index == 0 {
+						v = ta.X
+						continue
+					}
+					return v
+				case *ssa.TypeAssert:
+					v = x.X
+				case *ssa.MakeInterface:
+					v = x.X
+				default:
+					return v
+				}
+			}
+			return v
+		}
+		o := ord{}
+		engine.Instrs(f, func(in ssa.Instruction) {
+			st, ok := in.(*ssa.Store)
+			if !ok {
+				return
+			}
+			fld := engine.FieldOf(st.Addr)
+			if fld == nil || fld.Name() != "tempDeleted" {
+				return
+			}
+			app, ok := st.Val.(*ssa.Call)
+			if !ok {
+				return
+			}
+			// the scheduled hashes: elements of the varargs array: X.Hash()
+			var scheduled []ssa.Value
+			if sl, ok := app.Call.Args[1].(*ssa.Slice); ok {
+				if al, ok := sl.X.(*ssa.Alloc); ok {
+					for _, ref := range engine.Referrers(al) {
+						if ia, ok := ref.(*ssa.IndexAddr); ok {
+							for _, r2 := range engine.Referrers(ia) {
+								if es, ok := r2.(*ssa.Store); ok {
+									if hc, ok := es.Val.(*ssa.Call); ok {
+										if recv, ok := engine.IsMethodCall(hc, "Hash"); ok {
+											scheduled = append(scheduled, recv)
+										}
+									}
+								}
+							}
+						}
+					}
+				}
+			}
+			for _, x := range scheduled {
+				n++
+				xr := engine.ValKey(resolveOf(x))
+				bad := ""
+				engine.Instrs(f, func(i2 ssa.Instruction) {
+					s2, ok := i2.(*ssa.Store)
+					if !ok {
+						return
+					}
+					addr := s2.Addr
+					if ia, ok := addr.(*ssa.IndexAddr); ok {
+						addr = ia.X
+					}
+					f2 := engine.FieldOf(addr)
+					if f2 == nil || (f2.Name() != "value" && f2.Name() != "Children") {
+						return
+					}
+					if engine.ValKey(resolveOf(s2.Val)) != xr {
+						return
+					}
+					if engine.ReachableAfter(in, i2) || engine.ReachableAfter(i2, in) {
+						bad = "it is stored into the new trie at " + r.P.Pos(i2.Pos())
+					}
+				})
+				r.Check(bad == "", rule, o.next(fn(f)+"|schedule "+shortVal(x)), r.P.Pos(in.Pos()), "the scheduled node is replaced or merged, not kept",
+					"the hash of a node that stays in the trie is scheduled for deletion ("+bad+"): two garbage-collection passes later a node the committed root still references is removed")
+			}
+		})
+	}
+	if n < 5 {
+		r.Anchor(rule, fmt.Errorf("unresolved anchor: %d scheduled hashes found in insert/delete", n))
+	}
+}
+
+func shortVal(v ssa.Value) string {
+	if nm := namedOf(v.Type()); nm != nil {
+		return "*" + nm.Obj().Name()
+	}
+	return v.Type().String()
 }
